@@ -73,7 +73,7 @@ class ColumnDefinition:
             # Check for the "/* ... */" comment form
             if character == "/":
                 last_comment_character_index = (
-                    column_text.index("*/", character_index) + 1
+                    column_text.index("*/", character_index + 2) + 1
                 )
                 parsed_comment = column_text[
                     character_index : last_comment_character_index + 1
